@@ -3,6 +3,7 @@
 -/
 import Driver.AgentD
 import Stun.Model.Client
+import Stun.Model.ClientL2
 namespace Stun.Driver
 open Stun
 
@@ -60,5 +61,23 @@ def stepClient (c : Client) (toks : List String) : Option (Client × String) :=
     let cc := (r.2.2.filter (fun o => o == .connClose)).length
     some (r.1, s!"closes={ok} connclose={cc} reader=exited")
   | _ => none
+
+/-- L2 state: the L1 client plus scripted blocking writes. Ticks go through the blocking-aware callback; everything
+    else is the L1 operation on the embedded client. -/
+def stepClient2 (k : Client2) (toks : List String) : Option (Client2 × String) :=
+  match toks with
+  | ["CL", "blockwrite", id] => let r := k.step (.blockWrite (hex! id)); some (r.1, "ok")
+  | ["CL", "tick", t] => let r := k.step (.l1 (.tick (nat! t))); some (r.1, showOuts r.2.2)
+  | ["CL", "tick2", t] =>
+    let r := k.step (.l1 (.tick (nat! t)))
+    -- the script of blocking writes applies to this collector call only
+    let k' : Client2 := if r.1.susp.isEmpty then { r.1 with blockIds := [] } else r.1
+    some (k', s!"{showOuts r.2.2} blocked={k'.susp.length}")
+  | ["CL", "release", how] =>
+    let r := k.step (.release (how == "ok"))
+    let k' : Client2 := if r.1.susp.isEmpty then { r.1 with blockIds := [] } else r.1
+    some (k', s!"{showOuts r.2.2} blocked={k'.susp.length}")
+  | "CL" :: "new" :: _ => (stepClient k.c toks).map (fun r => ({ c := r.1 }, r.2))
+  | _ => (stepClient k.c toks).map (fun r => ({ k with c := r.1 }, r.2))
 
 end Stun.Driver
